@@ -129,6 +129,7 @@ type Exec struct {
 	expectPanicDepth int
 	local            *localCtx
 	schedOn          bool
+	preemptLeft      int
 	schedAllow       []string
 	gors             []*gor
 	curG             *gor
@@ -229,6 +230,7 @@ func (ex *Exec) resetPath(item workItem) {
 	ex.mapOrders = false
 	ex.mapOrderFn = ""
 	ex.schedOn = false
+	ex.preemptLeft = 1
 	ex.schedAllow = nil
 	ex.gors = nil
 	ex.curG = nil
